@@ -19,12 +19,64 @@ fn alloc_sized(t: &AllocTracker, count: usize, size: usize) -> Option<Result<All
     Some(r.map_err(|e| e.bytes()))
 }
 
+/// Concurrent callers on one tracker: `threads` threads, half of them only ask for more than the
+/// whole limit (must always be refused), the others take and release between 1/3 and 2/3 of it
+/// while a shadow counter sums the bytes of live handles. Linearizable single-RMW operations can
+/// never let the shadow sum exceed the limit.
+fn stress(threads: usize, iters: usize, limit: usize, seed: u64) -> String {
+    use std::sync::atomic::{AtomicUsize, Ordering};
+    use std::sync::Arc;
+    let tracker = AllocTracker::with_limit(limit);
+    let live = Arc::new(AtomicUsize::new(0));
+    let max_live = Arc::new(AtomicUsize::new(0));
+    let wrong_ok = Arc::new(AtomicUsize::new(0));
+    let mut hs = Vec::new();
+    for t in 0..threads {
+        let (tr, live, max_live, wrong_ok) = (tracker.clone(), live.clone(), max_live.clone(), wrong_ok.clone());
+        hs.push(std::thread::spawn(move || {
+            let mut x = seed ^ ((t as u64 + 1).wrapping_mul(0x9E3779B97F4A7C15));
+            for _ in 0..iters {
+                x ^= x << 13; x ^= x >> 7; x ^= x << 17;
+                if t % 2 == 0 {
+                    let too_much = limit + 1 + (x as usize % 1024);
+                    if let Ok(h) = tr.alloc::<u8>(too_much) {
+                        wrong_ok.fetch_add(1, Ordering::SeqCst);
+                        drop(h);
+                    }
+                } else {
+                    let want = limit / 3 + (x as usize % (limit / 3 + 1));
+                    if let Ok(h) = tr.alloc::<u8>(want) {
+                        let now = live.fetch_add(want, Ordering::SeqCst) + want;
+                        max_live.fetch_max(now, Ordering::SeqCst);
+                        std::hint::spin_loop();
+                        live.fetch_sub(want, Ordering::SeqCst);
+                        drop(h);
+                    }
+                }
+            }
+        }));
+    }
+    for h in hs {
+        let _ = h.join();
+    }
+    format!(
+        "stress max_live={} limit={} refused_ok={} left={}",
+        max_live.load(Ordering::SeqCst),
+        limit,
+        wrong_ok.load(Ordering::SeqCst),
+        tracker.verif_bytes_left()
+    )
+}
+
 fn main() {
     install_quiet_panic_hook();
     let st = St { tracker: AllocTracker::with_limit(0), handles: Vec::new() };
     line_loop(st, |st, w| {
         let p = |s: &str| s.parse::<usize>().ok();
         let res: Option<String> = (|| match w {
+            ["stress", t, n, l, seed] => {
+                return Some(stress(p(t)?, p(n)?, p(l)?.max(3), seed.parse().ok()?));
+            }
             ["init", l] => {
                 st.handles.clear();
                 st.tracker = AllocTracker::with_limit(p(l)?);
